@@ -603,6 +603,54 @@ def replay_mem(rep):
     return [v["message"] for v in st.violations]
 
 
+def race_stage(prop, tier, seed, runs=2, race_threads=8):
+    """Only the free-running part of the thread driver: N threads start together in a fresh process, first-use ONE never-used
+    parameter object, run the whole call menu each in its own order and then the same verifying calls at the same instant; TLC
+    (TraceThreads) accepts the recording only if every call returned what it returns when run alone (a panic is a result too)."""
+    from concurrent.futures import ThreadPoolExecutor
+    st = StageResult("rp+tv:races")
+    t0 = time.time()
+    wd = vlib.workdir(f"{prop}_races")
+    q = tier == "quick"
+    flood = ["--flood", "40000"]
+
+    def ref(c):
+        refp = os.path.join(wd, f"ref{c}.ndjson")
+        vlib.run_harness(["threads", "--reference", str(c), "--out", refp] + flood)
+        return open(refp).read()
+    with ThreadPoolExecutor(max_workers=8) as ex:
+        ref_lines = "".join(ex.map(ref, range(20)))
+    tcfg = "SPECIFICATION Spec\nCONSTRAINT Progress\nPOSTCONDITION Accepted\nCHECK_DEADLOCK FALSE\n"
+    for i in range(runs if q else runs * 5):
+        rp = os.path.join(wd, f"race{i}.ndjson")
+        vlib.run_harness(["threads", "--race", str(race_threads if i % 2 == 0 else 3 + i), "--run", str(i), "--out", rp] + flood, timeout=3000)
+        wdr = vlib.workdir(f"{prop}_tvrace_{i}")
+        p = os.path.join(wdr, "trace.ndjson")
+        body = open(rp).read()
+        with open(p, "w") as fh:
+            fh.write(ref_lines + body)
+        rr = vlib.run_tlc("TraceThreads", tcfg, wdr, workers=1, timeout=1500, java_opts=TRACE_JAVA, env_extra={"TRACE": p})
+        st.states += rr.get("distinct", 0)
+        st.transitions += rr.get("generated", 0)
+        rej = vlib.tagged_lines(rr["out"], "REJECTED")
+        if rej:
+            import re
+            pos = int(re.match(r"\s*(\d+),", rej[-1]).group(1))
+            allev = [json.loads(x) for x in (ref_lines + body).splitlines()]
+            bad = allev[pos - 1] if pos <= len(allev) else {}
+            what = "panicked" if bad.get("digest") == "panic" else "returned a result different from the same call run alone"
+            st.add_violation(f"[TraceThreads/race{i}] call {bad.get('call')} on thread {bad.get('th')} {what}",
+                             {"kind": "threads", "seed": seed, "tier": tier, "name": f"race{i}", "event": bad, "history": None})
+        else:
+            if not rr["ok"]:
+                raise vlib.ToolError("TLC failed on TraceThreads:\n" + rr["out"][-2000:])
+            st.evaluations += body.count("\n")
+            st.traces += 1
+    st.samples.append({"races": runs if q else runs * 5, "threads": race_threads, "calls_per_thread": 25})
+    st.wall = time.time() - t0
+    return st
+
+
 def threads_stage(prop, tier, seed, races=6, race_threads=8):
     """Reference process, TLC-generated histories on real threads with forced hand-off, free-running races in fresh processes."""
     st = StageResult("rp+tv:threads")
